@@ -1,0 +1,85 @@
+//! Verification hooks, compiled only with `--cfg phylotree_verif`.
+//! Nothing in this module is part of the crate when the flag is off.
+#![allow(missing_docs)]
+
+use std::cell::RefCell;
+
+use rand::{rngs::StdRng, RngCore, SeedableRng};
+
+use crate::tree::{Node, NodeId, Tree};
+
+thread_local! {
+    static SEED: RefCell<Option<StdRng>> = const { RefCell::new(None) };
+}
+
+/// Seed the thread-local generator used in place of `thread_rng()`.
+pub fn set_seed(seed: u64) {
+    SEED.with(|s| *s.borrow_mut() = Some(StdRng::seed_from_u64(seed)));
+}
+
+/// Generator standing in for `thread_rng()`: a fresh `StdRng` split off the seeded
+/// thread-local one (seeded from `PHYLOTREE_VERIF_SEED`, else 0, when `set_seed` was not called).
+pub fn rng() -> StdRng {
+    SEED.with(|s| {
+        let mut guard = s.borrow_mut();
+        let base = guard.get_or_insert_with(|| {
+            let seed = std::env::var("PHYLOTREE_VERIF_SEED")
+                .ok()
+                .and_then(|v| v.parse().ok())
+                .unwrap_or(0);
+            StdRng::seed_from_u64(seed)
+        });
+        StdRng::seed_from_u64(base.next_u64())
+    })
+}
+
+/// H2: the crate-private triangular index functions.
+pub fn tril_to_rowvec_index(size: usize, i: usize, j: usize) -> usize {
+    crate::distance::tril_to_rowvec_index(size, i, j)
+}
+
+/// H2: the crate-private triangular index functions.
+pub fn rowvec_to_tril_index(size: usize, k: usize) -> (usize, usize) {
+    crate::distance::rowvec_to_tril_index(size, k)
+}
+
+/// H3: raw view of one arena slot (tombstones included).
+#[derive(Debug, Clone, PartialEq)]
+pub struct RawSlot {
+    pub id: NodeId,
+    pub name: Option<String>,
+    pub parent: Option<NodeId>,
+    pub children: Vec<NodeId>,
+    pub parent_edge: Option<f64>,
+    pub comment: Option<String>,
+    /// `None` when the map was never allocated; entries sorted by child id
+    pub child_edges: Option<Vec<(NodeId, f64)>>,
+    pub depth: usize,
+    pub deleted: bool,
+    pub has_subtree_distances: bool,
+}
+
+/// H3: raw view of the whole arena, in slot order.
+pub fn raw_slots(tree: &Tree) -> Vec<RawSlot> {
+    tree.verif_nodes().iter().map(raw_slot).collect()
+}
+
+fn raw_slot(n: &Node) -> RawSlot {
+    RawSlot {
+        id: n.id,
+        name: n.name.clone(),
+        parent: n.parent,
+        children: n.children.clone(),
+        parent_edge: n.parent_edge,
+        comment: n.comment.clone(),
+        child_edges: n.verif_child_edges(),
+        depth: n.get_depth(),
+        deleted: n.verif_deleted(),
+        has_subtree_distances: n.verif_has_subtree_distances(),
+    }
+}
+
+/// H3: which of the two bipartition caches are filled (leaf index, partitions).
+pub fn cache_state(tree: &Tree) -> (bool, bool) {
+    tree.verif_cache_state()
+}
